@@ -56,7 +56,7 @@ def lake_build(targets):
 
 
 def props_of(pid):
-    p = json.load(open(os.path.join(ROOT, 'props.json')))
+    p = json.load(open(os.path.join(ROOT, 'theorems.json')))
     return p.get(pid, {'module': None, 'theorems': []})
 
 
